@@ -609,6 +609,15 @@ Definition finalize (m : model) : result model :=
         m_requests := m_requests m; m_whitelist := m_whitelist m; m_cvs := m_cvs m;
         m_defaults := m_defaults m; m_finalized := true |}.
 
+(* model.set_default_parameters: replaces the defaults (and drops the cached runner, Model/Api.v);
+   the finalisation flag is not touched *)
+Definition set_default_parameters (m : model) (d : list (string * Q)) : model :=
+  {| m_times := m_times m; m_comps := m_comps m; m_orig := m_orig m; m_infectious := m_infectious m;
+     m_flows := m_flows m; m_strats := m_strats m; m_mixcats := m_mixcats m; m_strains := m_strains m;
+     m_actions := m_actions m; m_initpop := m_initpop m; m_arraypop := m_arraypop m;
+     m_requests := m_requests m; m_whitelist := m_whitelist m; m_cvs := m_cvs m;
+     m_defaults := d; m_finalized := m_finalized m |}.
+
 (* ---------------------------------------------------------------------------------- queries *)
 (* model.query_compartments(query) without tags / with the "infectious" tag *)
 Definition is_infectious_comp (m : model) (c : comp) : bool := mem_str (c_name c) (m_infectious m).
